@@ -63,12 +63,86 @@ def run_structural(chk, F):
         chk.expect("B4.errors", key, not eprobs, "%s: %s" % (b["path"], "; ".join(sorted(set(eprobs)))))
 
 
+def run_content(chk, F, tier):
+    """B6: the byte views interpreted (sa/ivl.py) on buffers of every length 0..=17 (0..=40 in the thorough tier) whose bytes are
+    pairwise different tokens, with write_bits / read_bits of the stream stubbed: the fields handed to write_bits, read in stream
+    order (BE: most significant byte first, LE: least significant first), are exactly the bytes of the buffer in order; the bytes
+    stored by read are exactly the stream bytes of the values read_bits returned, in order; both report the whole length."""
+    import ivl
+    from ivl import AI, Agg, Ref, Frame, Slice, Opaque, mk_variant
+    chk.rule("B6.content", floor=6, doc=run_content.__doc__.strip().replace("\n    ", " "))
+    top = 40 if tier == "thorough" else 17
+    for kind, e, b in io_bodies(F):
+        probs = []
+        undecided = []
+        n_ok = 0
+        for L in range(0, top + 1):
+            log = []
+
+            def h_write_bits(it, name, args, fargs, fr, t):
+                log.append((args[1], args[2]))
+                return mk_variant("std::result::Result", "Ok", [args[2]])
+
+            def h_read_bits(it, name, args, fargs, fr, t):
+                n = args[1].const() if isinstance(args[1], AI) else None
+                if n is None or n > 64:
+                    raise ivl.Unsupported("read_bits width")
+                j = len(log)
+                tokbytes = [(0x20 + 8 * j + i) & 0xFF for i in range(8)]        # the stream bytes this read returns, in stream order
+                k = n // 8
+                bs = tokbytes[:k]
+                v = 0
+                for x in (bs if e == "be" else bs[::-1]):
+                    v = (v << 8) | x
+                log.append((bs, n))
+                return mk_variant("std::result::Result", "Ok", [AI("u64", v, v)])
+            it = ivl.Interp(F, 0, 0, {"traits::bits::BitWrite::write_bits": h_write_bits, "traits::bits::BitRead::read_bits": h_read_bits})
+            st = Frame({"path": "buf"}, {})
+            st.locals[0] = Agg("array", None, None, None, [AI("u8", (0x10 + 3 * i) & 0xFF, (0x10 + 3 * i) & 0xFF) for i in range(L)])
+            sh = Frame({"path": "self"}, {})
+            sh.locals[0] = Opaque("the stream")
+            env = {g: g for g in b.get("generics") or []}
+            try:
+                r = it.call_body(b, [Ref(sh, 0, ()), Slice(Ref(st, 0, ()), 0, L)], env, 0)
+            except (ivl.Unsupported, ivl.Undecided) as ex:
+                # code the interpreter does not model (e.g. a path that works on the stream's own fields): not decided by this rule
+                undecided.append("length %d: %s" % (L, ex))
+                continue
+            except ivl.Panic as ex:
+                probs.append("length %d: panics: %s" % (L, ex))
+                continue
+            okr = isinstance(r, Agg) and r.variant == "Ok" and isinstance(r.fields[0], AI) and r.fields[0].const() == L
+            buf = [x.const() if isinstance(x, AI) else None for x in st.locals[0].fields]
+            if kind == "write":
+                stream = []
+                for v, n in log:
+                    vc, nc = (v.const() if isinstance(v, AI) else None), (n.const() if isinstance(n, AI) else None)
+                    if vc is None or nc is None or nc % 8 or nc > 64 or vc >> nc:
+                        stream.append(None)
+                        continue
+                    bs = [(vc >> (8 * i)) & 0xFF for i in range(nc // 8)]
+                    stream.extend(bs[::-1] if e == "be" else bs)
+                good = okr and stream == buf
+                if not good:
+                    probs.append("length %d: returns %r and writes the stream bytes %s for the buffer %s" % (L, r, stream, buf))
+            else:
+                stream = [x for bs, n in log for x in bs]
+                good = okr and buf == stream and all(n % 8 == 0 for _, n in log)
+                if not good:
+                    probs.append("length %d: returns %r and stores %s for the stream bytes %s" % (L, r, buf, stream))
+            n_ok += 1 if good else 0
+        key = "%s|%s" % ((b.get("impl_self") or "")[:60], kind)
+        chk.expect("B6.content", key, not probs, "%s: %s" % (b["path"], "; ".join(probs[:3])), detail={"problems": probs[:10]},
+                   sample={"fn": b["path"], "lengths": "0..=%d" % top, "decided": n_ok, "not_decided": undecided[:2]})
+
+
 def run_all(chk, fsets, tier):
     import facts
     for i, fs in enumerate(fsets):
         F = facts.load(fs)
         if i == 0:
             run_structural(chk, F)
+            run_content(chk, F, tier)
         specs = [s for s in rn.writer_specs() + rn.reader_specs() if s.group == "io"]
         chk.rule("B1.numeric", floor=150 if i == 0 else 0,
                  doc="E3 over the six io::Read/io::Write bodies x word sizes: chunk length vs [u8; 8] conversion (try_into().unwrap()), remainder width <= 64 bits, copy_from_slice length equalities, range bounds, read_bits/write_bits widths, invariants")
